@@ -56,9 +56,13 @@ func (obj Symbol) needPipes() bool {
 			return true
 		}
 	}
-	if c := obj[0]; c == '+' || c == '-' || ('0' <= c && c <= '9') {
+	switch c := obj[0]; {
+	case c == '+' || c == '-' || ('0' <= c && c <= '9'):
 		// Without bars a name spelled like a number is read as a number.
 		return numberLike(bytes.ToLower([]byte(obj)))
+	case c == '.':
+		// A lone dot marks a dotted pair.
+		return len(obj) == 1
 	}
 	return false
 }
